@@ -93,8 +93,14 @@ static MessageRef GenBinaryMsg(Case & c, std::string & flat, bool templ, std::ma
    }
    else
    {
-      GenOpts o; o.allowNonFlattenable = false; o.maxTopOps = 8; o.maxDepth = 2; o.allowBursts = (c.bs.u8()%8 == 0);
+      GenOpts o; o.allowNonFlattenable = false; o.maxTopOps = 8; o.maxDepth = 2; const uint8_t cb = c.bs.u8(); o.allowBursts = (cb%8 == 0);
       Generator g(c.bs, o); g.Gen(0, *m(), mod);
+      if (((cb>>3)%8 == 7)&&(big == false)&&(mod.find("pad") < 0))
+      {
+         // a Message whose flattened size lands on or next to the gateways' 2048-byte scratch receive buffer (header 8 + body): 2030 .. 2069 bytes
+         const size_t flat0 = Encode(mod).size(); const size_t target = 2030+(c.bs.u8()%40);
+         if (flat0+25 <= target) {const size_t L = target-flat0-24; std::vector<uint8> v(L); uint32 x = 12345u+(uint32)L; for (size_t i=0; i<L; i++) {x = x*1664525u+1013904223u; v[i] = (uint8)(x>>24);} (void) m()->AddData("pad", B_RAW_TYPE, &v[0], (uint32)L); MField f; f.name = "pad"; f.tc = B_RAW_TYPE; f.items.push_back(std::string((const char *)&v[0], L)); mod.f.push_back(f); vf::Count("message_sized_to_the_scratch_buffer_boundary");}
+      }
       if (big) {std::vector<uint8> v(300*1024, 0); for (size_t i=0; i<v.size(); i++) v[i] = (uint8)(i*31+(i>>8)); (void) m()->AddData("big", B_RAW_TYPE, &v[0], (uint32)v.size()); MField f; f.name = "big"; f.tc = B_RAW_TYPE; f.items.push_back(std::string((const char *)&v[0], v.size())); int fi = mod.find("big"); if (fi >= 0) {(void) m()->RemoveName("big"); (void) m()->AddData("big", B_RAW_TYPE, &v[0], (uint32)v.size()); mod.f.erase(mod.f.begin()+fi);} mod.f.push_back(f);}
    }
    flat = Encode(mod);
